@@ -13,7 +13,8 @@ type Lines struct {
 	marks       map[int]struct{}
 }
 
-func newLines(code *deps.Code) *Lines {
+// codeLines renders all lines of code and finds the first line of every block.
+func codeLines(code *deps.Code) ([]Line, []int) {
 	// Each block will have a header and will be delimited by a blank line.
 	// Each instruction will be a single line. In the end, there will be a
 	// single empty line.
@@ -29,6 +30,11 @@ func newLines(code *deps.Code) *Lines {
 	}
 
 	lns = append(lns, newEmptyLine())
+	return lns, blockStarts
+}
+
+func newLines(code *deps.Code) *Lines {
+	lns, blockStarts := codeLines(code)
 
 	return &Lines{
 		lines:       lns,
@@ -79,14 +85,10 @@ func (l *Lines) Reload(blockIdx int) {
 	copy(lines, newBlock)
 }
 
-func (l *Lines) reloadRange(from int, to int) {
-	if from > to {
-		from, to = to, from
-	}
-
-	for i := from; i <= to; i++ {
-		l.Reload(i)
-	}
+// reloadAll renders all lines again. It has to be used whenever blocks change
+// their positions as then they change their first lines as well.
+func (l *Lines) reloadAll() {
+	l.lines, l.blockStarts = codeLines(l.code)
 }
 
 func (l *Lines) Move(fromLine int, toLine int) error {
@@ -120,7 +122,7 @@ func (l *Lines) Move(fromLine int, toLine int) error {
 			return fmt.Errorf("block move failed: %w", err)
 		}
 
-		l.reloadRange(fromBlock, toBlock)
+		l.reloadAll()
 	} else {
 		if fromBlock != toBlock {
 			return fmt.Errorf("instructions cannot be moved among blocks")
